@@ -22,9 +22,11 @@ import Mathlib.Tactic.NormNum
     1   C06_extend_append, C06_partition(_indep), C06_inv               any partition, invariant
     4   extend_one_elev_counterexample, C06_counts_needs_LinkOK,
         extend_append_counterexample, C06_extend_append_needs_hyp       `LinkOK` is forced
-    +   FINDING: C06_wrap_counterexample / C06_wrap_fails / C06_wrap_partial /
-        C06_wrap_route_counterexample — the heading wrap-around formula returns `|Δh|` instead of
-        `REV − |Δh|` for heading changes `Δh < −REV/2` (heading increasing through north).
+    2d' C06_wrap, curveCoeff_eq, C06_wrap_route: the wrapped heading change is the angular distance
+        `min |Δh| (REV − |Δh|)` for every pair of validated headings (repaired code).
+    +   REPAIRED DEFECT (kept as documentation, about the original formula `wrapOld`):
+        C06_wrapOld_counterexample / C06_wrapOld_fails / C06_wrapOld_partial — the original formula
+        returned `|Δh|` instead of `REV − |Δh|` for `Δh < −REV/2` (heading increasing through north).
 -/
 set_option linter.unusedSectionVars false
 set_option linter.unusedVariables false
@@ -815,23 +817,30 @@ theorem C06_extend_append_needs_hyp :
   rw [g1] at g2
   exact absurd g2 (by decide)
 
-/-! ## Finding — the heading wrap-around is wrong for heading changes below `−REV/2`
+/-! ## The heading wrap-around (2d, semantic part) — and the repaired defect
 
-  `extend` computes the curvature of a heading segment as
-  `(-REV/2 + (Δh + REV/2) % REV).abs() / length`.  Validated headings lie in `[0, REV)`, so
-  `Δh ∈ (−REV, REV)`.  Rust's `%` on floats keeps the sign of the dividend, so for `Δh < −REV/2`
-  (a heading that increases through north, e.g. 350° → 10°, `Δh = −340°`) the result is `|Δh|`
-  (340°) instead of the angular distance `REV − |Δh|` (20°).  The model transcribes the code
-  (`fmodSmall`, bit-exact against Rust), so C06 (2d) holds as stated — the coefficient IS
-  `curveCoeff` of the heading difference — but `curveCoeff` is the heading-change rate only for
-  `Δh ≥ −REV/2`. -/
+  `extend` computes the curvature of a heading segment as `|wrap(Δh)| / length`.  Validated headings
+  lie in `[0, REV)`, so `Δh ∈ (−REV, REV)`.
+
+  REPAIRED DEFECT.  The original code was `(-REV/2 + (Δh + REV/2) % REV).abs()`.  Rust's `%` on floats
+  keeps the sign of the dividend, so for `Δh < −REV/2` (a heading that increases through north, e.g.
+  350° → 10°, `Δh = −340°`) it returned `|Δh|` (340°) instead of the angular distance `REV − |Δh|`
+  (20°): `wrapOld`, `C06_wrapOld_counterexample`, `C06_wrapOld_fails`, `C06_wrapOld_partial` below.
+  The repaired code brings the remainder into `[0, REV)` first (`wrapAbs`); `C06_wrap` proves that it
+  is the angular distance on the whole range. -/
 
 section wrapdefs
 variable {α : Type} [Add α] [Sub α] [Mul α] [Div α] [Neg α] [LT α] [LE α]
   [DecidableLT α] [DecidableLE α] [OfNat α 0] [OfNat α 1]
 
-/-- the wrapped heading-change magnitude that `extend` divides by the segment length -/
+/-- the wrapped heading-change magnitude that `extend` divides by the segment length (repaired code) -/
 def wrapAbs (g : GeoConsts α) (dh : α) : α :=
+  absv (-g.rev / g.two +
+    (if fmodSmall (dh + g.rev / g.two) g.rev < 0 then fmodSmall (dh + g.rev / g.two) g.rev + g.rev
+     else fmodSmall (dh + g.rev / g.two) g.rev))
+
+/-- the same magnitude as the ORIGINAL code computed it (before the repair) -/
+def wrapOld (g : GeoConsts α) (dh : α) : α :=
   absv (-g.rev / g.two + fmodSmall (dh + g.rev / g.two) g.rev)
 
 /-- the three-coefficient curve-resistance formula on a curvature -/
@@ -840,6 +849,7 @@ def curveOf (g : GeoConsts α) (par : TrainPar α) (k : α) : α :=
    else par.c0 * (g.deg / g.ft100) + par.c1 * (k - g.deg / g.ft100)
         + par.c2 * (k - g.deg / g.ft100) * (k - g.deg / g.ft100) / g.radpm) / g.radpm
 
+/-- `curveCoeff` is the three-coefficient formula applied to `wrapAbs / length` -/
 theorem curveCoeff_eq (g : GeoConsts α) (par : TrainPar α) (dh len : α) :
     curveCoeff g par dh len = curveOf g par (wrapAbs g dh / len) := rfl
 end wrapdefs
@@ -847,19 +857,57 @@ end wrapdefs
 section wrap
 variable {α : Type} [Field α] [LinearOrder α] [IsStrictOrderedRing α]
 
-/-- what the formula is meant to compute: the angular distance of two headings in `[0, REV)` -/
+/-- **C06 (2d, heading-change rate).**  For every heading difference of two validated headings the
+    wrapped magnitude is the angular distance `min |Δh| (REV − |Δh|)`; hence (`curveCoeff_eq`) every
+    curve coefficient is the three-coefficient formula of the heading-change rate
+    `angular distance / segment length`. -/
 def C06_wrap_statement : Prop :=
-  ∀ (g : GeoConsts α) (dh : α), 0 < g.rev → g.two = 2 → -g.rev < dh → dh < g.rev →
+  ∀ (g : GeoConsts α) (dh : α),
+    0 < g.rev → g.two = 2 →            -- the unit constants `uc::REV`, `2.0`
+    -g.rev < dh → dh < g.rev →         -- headings are validated into `[0, REV)`
     wrapAbs g dh = min |dh| (g.rev - |dh|)
 
-/-- strongest true variant: the extra hypothesis `−REV/2 ≤ Δh` is forced -/
-def C06_wrap_partial_statement : Prop :=
-  ∀ (g : GeoConsts α) (dh : α), 0 < g.rev → g.two = 2 → -g.rev / 2 ≤ dh → dh < g.rev →
-    wrapAbs g dh = min |dh| (g.rev - |dh|)
-
-theorem C06_wrap_partial : C06_wrap_partial_statement (α := α) := by
+theorem C06_wrap : C06_wrap_statement (α := α) := by
   intro g dh hrev htwo hlo hhi
+  have hneg : -g.rev / 2 = -(g.rev / 2) := by ring
   unfold wrapAbs fmodSmall
+  rw [Basic.absv_eq_abs, htwo]
+  by_cases h0 : dh + g.rev / 2 < 0
+  · -- `Δh < −REV/2`: the remainder is negative and is shifted by `REV`
+    simp only [if_pos h0]
+    have e : -g.rev / 2 + (dh + g.rev / 2 + g.rev) = dh + g.rev := by ring
+    rw [e, abs_of_pos (by linarith), abs_of_neg (by linarith), min_eq_right (by linarith)]
+    ring
+  · simp only [if_neg h0]
+    by_cases h1 : dh + g.rev / 2 < g.rev
+    · simp only [if_pos h1, if_neg h0]
+      have e : -g.rev / 2 + (dh + g.rev / 2) = dh := by ring
+      rw [e]
+      have : |dh| ≤ g.rev / 2 := by
+        rw [abs_le]; constructor <;> linarith
+      exact (min_eq_left (by linarith)).symm
+    · have h2 : ¬ dh + g.rev / 2 - g.rev < 0 := by linarith [not_lt.mp h1]
+      simp only [if_neg h1, if_neg h2]
+      have e : -g.rev / 2 + (dh + g.rev / 2 - g.rev) = dh - g.rev := by ring
+      have hd : g.rev / 2 ≤ dh := by linarith [not_lt.mp h1]
+      rw [e, abs_of_nonpos (by linarith), abs_of_nonneg (by linarith), min_eq_right (by linarith)]
+      ring
+
+/-! ### the original formula (documentation of the repaired defect) -/
+
+/-- what the original formula was meant to satisfy — FALSE, see `C06_wrapOld_counterexample` -/
+def C06_wrapOld_statement : Prop :=
+  ∀ (g : GeoConsts α) (dh : α), 0 < g.rev → g.two = 2 → -g.rev < dh → dh < g.rev →
+    wrapOld g dh = min |dh| (g.rev - |dh|)
+
+/-- strongest true variant for the original formula: the extra hypothesis `−REV/2 ≤ Δh` is forced -/
+def C06_wrapOld_partial_statement : Prop :=
+  ∀ (g : GeoConsts α) (dh : α), 0 < g.rev → g.two = 2 → -g.rev / 2 ≤ dh → dh < g.rev →
+    wrapOld g dh = min |dh| (g.rev - |dh|)
+
+theorem C06_wrapOld_partial : C06_wrapOld_partial_statement (α := α) := by
+  intro g dh hrev htwo hlo hhi
+  unfold wrapOld fmodSmall
   rw [Basic.absv_eq_abs, htwo]
   have h0 : ¬ dh + g.rev / 2 < 0 := by
     have : -g.rev / 2 = -(g.rev / 2) := by ring
@@ -879,43 +927,77 @@ theorem C06_wrap_partial : C06_wrap_partial_statement (α := α) := by
     rw [e, abs_of_nonpos (by linarith), abs_of_nonneg (by linarith)]
     rw [min_eq_right (by linarith)]; ring
 
-/-- on the remaining range the code returns `|Δh|`, which exceeds half a revolution -/
-theorem C06_wrap_fails (g : GeoConsts α) (dh : α) (hrev : 0 < g.rev) (htwo : g.two = 2)
+/-- on the remaining range the original code returned `|Δh|`, which exceeds half a revolution -/
+theorem C06_wrapOld_fails (g : GeoConsts α) (dh : α) (hrev : 0 < g.rev) (htwo : g.two = 2)
     (hlo : -g.rev < dh) (hhi : dh < -g.rev / 2) :
-    wrapAbs g dh = |dh| ∧ g.rev - |dh| < |dh| := by
+    wrapOld g dh = |dh| ∧ g.rev - |dh| < |dh| := by
   have hneg : -g.rev / 2 = -(g.rev / 2) := by ring
   have h0 : dh + g.rev / 2 < 0 := by linarith
-  unfold wrapAbs fmodSmall
+  unfold wrapOld fmodSmall
   rw [Basic.absv_eq_abs, htwo, if_pos h0]
   have e : -g.rev / 2 + (dh + g.rev / 2) = dh := by ring
   rw [e]
   refine ⟨rfl, ?_⟩
   rw [abs_of_neg (by linarith)]; linarith
 
+/-- old and repaired formula agree wherever the old one was right -/
+theorem wrapAbs_eq_wrapOld (g : GeoConsts α) (dh : α) (hrev : 0 < g.rev) (htwo : g.two = 2)
+    (hlo : -g.rev / 2 ≤ dh) (hhi : dh < g.rev) : wrapAbs g dh = wrapOld g dh := by
+  rw [C06_wrap g dh hrev htwo (by have : -g.rev / 2 = -(g.rev / 2) := by ring
+                                  linarith) hhi,
+    C06_wrapOld_partial g dh hrev htwo hlo hhi]
+
 end wrap
 
-example : wrapAbs Ex.gq (3 - 1/2 : ℚ) = min |(3 - 1/2 : ℚ)| (Ex.gq.rev - |(3 - 1/2 : ℚ)|) :=
-  C06_wrap_partial Ex.gq _ (by decide +kernel) rfl (by decide +kernel) (by decide +kernel)
+/-- `REV = 6`, headings `59/10 → 1/5` (a turn by `+3/10` through north): the repaired code gives
+    `3/10` -/
+example : wrapAbs Ex.gq (1/5 - 59/10 : ℚ) =
+    min |(1/5 - 59/10 : ℚ)| (Ex.gq.rev - |(1/5 - 59/10 : ℚ)|) :=
+  C06_wrap Ex.gq _ (by decide +kernel) rfl (by decide +kernel) (by decide +kernel)
 
-/-- `REV = 6`, headings `59/10 → 1/5` (true change `+3/10` through north): the code uses `57/10`. -/
-theorem C06_wrap_counterexample : ¬ C06_wrap_statement (α := ℚ) := by
+example : wrapAbs Ex.gq (1/5 - 59/10 : ℚ) = 3/10 := by decide +kernel
+
+example : wrapOld Ex.gq (3 - 1/2 : ℚ) = min |(3 - 1/2 : ℚ)| (Ex.gq.rev - |(3 - 1/2 : ℚ)|) :=
+  C06_wrapOld_partial Ex.gq _ (by decide +kernel) rfl (by decide +kernel) (by decide +kernel)
+
+/-- `REV = 6`, headings `59/10 → 1/5`: the ORIGINAL code used `57/10` instead of `3/10`. -/
+theorem C06_wrapOld_counterexample : ¬ C06_wrapOld_statement (α := ℚ) := by
   intro h
   have := h Ex.gq (1/5 - 59/10) (by decide +kernel) rfl (by decide +kernel) (by decide +kernel)
   revert this
   decide +kernel
 
-/-- the effect on the example route: link 3 turns by `3/10` over 800 m (`59/10 → 1/5` through north),
-    but its curve coefficient is computed from a curvature of `57/10 / 800` -/
-theorem C06_wrap_route_counterexample :
-    curveCoeff Ex.gq Ex.par (1/5 - 59/10) 800 = curveOf Ex.gq Ex.par (57/10 / 800) ∧
-    curveCoeff Ex.gq Ex.par (1/5 - 59/10) 800 ≠ curveCoeff Ex.gq Ex.par (3/10) 800 ∧
-    -- the opposite direction (`1/5 → 59/10`, `Δh = +57/10`) is wrapped correctly
-    curveCoeff Ex.gq Ex.par (59/10 - 1/5) 800 = curveCoeff Ex.gq Ex.par (-(3/10)) 800 := by
-  have w1 : wrapAbs Ex.gq (1/5 - 59/10) = 57/10 := by decide +kernel
+example : wrapOld Ex.gq (1/5 - 59/10 : ℚ) = 57/10 ∧ (1/5 - 59/10 : ℚ) < -Ex.gq.rev / 2 :=
+  ⟨(C06_wrapOld_fails Ex.gq _ (by decide +kernel) rfl (by decide +kernel) (by decide +kernel)).1.trans
+    (by decide +kernel), by decide +kernel⟩
+
+/-- the example route after the repair: link 3 turns by `3/10` over 800 m (`59/10 → 1/5` through
+    north) and its curve coefficient is that of the small turn, in either direction of travel; the
+    original code would have used a curvature of `57/10 / 800`. -/
+theorem C06_wrap_route :
+    curveCoeff Ex.gq Ex.par (1/5 - 59/10) 800 = curveOf Ex.gq Ex.par (3/10 / 800) ∧
+    curveCoeff Ex.gq Ex.par (1/5 - 59/10) 800 = curveCoeff Ex.gq Ex.par (3/10) 800 ∧
+    curveCoeff Ex.gq Ex.par (59/10 - 1/5) 800 = curveCoeff Ex.gq Ex.par (3/10) 800 ∧
+    curveOf Ex.gq Ex.par (wrapOld Ex.gq (1/5 - 59/10) / 800) ≠
+      curveCoeff Ex.gq Ex.par (1/5 - 59/10) 800 := by
+  have w1 : wrapAbs Ex.gq (1/5 - 59/10) = 3/10 := by decide +kernel
   have w3 : wrapAbs Ex.gq (3/10) = 3/10 := by decide +kernel
   have w4 : wrapAbs Ex.gq (59/10 - 1/5) = 3/10 := by decide +kernel
-  have w5 : wrapAbs Ex.gq (-(3/10)) = 3/10 := by decide +kernel
-  simp only [curveCoeff_eq, w1, w3, w4, w5, true_and, and_true]
+  have w5 : wrapOld Ex.gq (1/5 - 59/10) = 57/10 := by decide +kernel
+  simp only [curveCoeff_eq, w1, w3, w4, w5, true_and]
   norm_num [curveOf, Ex.gq, Ex.par]
+
+/-- the curve point of link 3 on the built path carries the small-turn coefficient -/
+example : ∃ t, extend Ex.u32 Ex.gq Ex.net (Tpc.new Ex.par) [1, 2, 3] = .ok t ∧
+    ∃ nk, t.curves[2]? = some ⟨1500, curveCoeff Ex.gq Ex.par (3/10) 800, nk⟩ := by
+  obtain ⟨t, h⟩ := Ex.ext123
+  obtain ⟨nk, hk⟩ := C06_curve_point _ _ _ _ _ _ t h Ex.res123 Ex.oklinks [Ex.l1, Ex.l2] Ex.l3 []
+    [] ⟨0, 59/10⟩ ⟨800, 1/5⟩ [] rfl rfl
+  refine ⟨t, h, nk, ?_⟩
+  have e : ([Ex.l1, Ex.l2].map curveCnt).sum + ([] : List (Heading ℚ)).length = 2 := by decide
+  rw [e] at hk
+  rw [hk, ← C06_wrap_route.2.1]
+  simp [routeLen, Ex.l1, Ex.l2]
+  norm_num
 
 end Altrios.Proofs.C06
